@@ -244,6 +244,47 @@ func tdScenarios(thorough bool) []tdScenario {
 			return []func(){cutC, cutP}, nil, false, nil
 		}})
 	}
+	// (3a) a held-up publisher has pipelined its own end (DISCONNECT, or a packet of a
+	//      reserved type) with more than a read block of further data behind it: when
+	//      the stalled subscriber goes away, the publisher's processor works off the
+	//      backlog and ends the connection by itself while its receiver is parked for
+	//      room in the full incoming ring
+	for _, how := range []string{"disconnect", "garbage"} {
+		how := how
+		out = append(out, tdScenario{name: "held-up-publisher/own-" + how + "-with-backlog-behind-it", run: func(t *tdWorld) ([]func(), map[string]bool, bool, func()) {
+			w := t.connect("W", 0, 65535, false)
+			t.subscribe("W", "will/#", 0)
+			c := t.connect("C", 512, 65535, false)
+			t.subscribe("C", "t", 0)
+			p := t.connect("P", 0, 65535, true)
+			w.rc.Take()
+			var wire []byte
+			for i := 0; i < 3; i++ {
+				wire = append(wire, refcodec.Encode(bigPub("t", 8000, byte(i)))...)
+			}
+			if how == "disconnect" {
+				wire = append(wire, refcodec.Encode(&refcodec.Packet{Type: refcodec.DISCONNECT})...)
+			} else {
+				wire = append(wire, 0xf0, 0x00)
+			}
+			for i := 0; i < 2; i++ {
+				wire = append(wire, refcodec.Encode(bigPub("nobody", 8000, byte(10+i)))...)
+			}
+			p.rc.SendRaw(wire)
+			t.settleExcept()
+			final := func() {
+				nw := len(publishesOn(w.rc.Take(), "will/p"))
+				want := 0
+				if how == "garbage" {
+					want = 1
+				}
+				if nw != want {
+					vsched.Failf("the publisher ended by %s; its will was published %d times, expected %d", how, nw, want)
+				}
+			}
+			return []func(){func() { c.rc.Cut(); c.ended = true; p.ended = true }}, nil, false, final
+		}})
+	}
 	// (3b) many publishers held up by one stalled subscriber that connected last,
 	//      then Server.Close: stopping the publishers can only finish once the
 	//      subscriber is being stopped as well, however many publishers wait
@@ -374,7 +415,7 @@ func C16(c *core.Ctx) {
 	if c.Thorough() {
 		dev = 2
 	}
-	c.Rep.Bound = fmt.Sprintf("SCHED: end cause (DISCONNECT, cut, keep-alive expiry in virtual time, garbage packet, Server.Close) x buffer condition (idle; own outbound ring full with a client that stopped reading; publisher held up by a third party's full ring; 2/5/9 publishers held up by one stalled subscriber that connected last, then Server.Close; cross-blocked pair; packet larger than the ring can take; partial packet in the inbound ring) x order of the ends; plus (default schedule) every hostile byte stream of C05 as the last bytes of a connection, then a cut; set-up under the default schedule, from the first ending action on every schedule that deviates from the default schedule at <= %d points", dev)
+	c.Rep.Bound = fmt.Sprintf("SCHED: end cause (DISCONNECT, cut, keep-alive expiry in virtual time, garbage packet, Server.Close) x buffer condition (idle; own outbound ring full with a client that stopped reading; publisher held up by a third party's full ring (cut, or its own pipelined DISCONNECT / reserved packet with a backlog behind it); 2/5/9 publishers held up by one stalled subscriber that connected last, then Server.Close; cross-blocked pair; packet larger than the ring can take; partial packet in the inbound ring) x order of the ends; plus (default schedule) every hostile byte stream of C05 as the last bytes of a connection, then a cut; set-up under the default schedule, from the first ending action on every schedule that deviates from the default schedule at <= %d points", dev)
 	c.Rep.Rule = "oracle at quiescence (reached without further environment action = bounded time): the goroutines of every ended connection are gone, its clean session is out of the store, its subscription out of the topic tree, its will published (not after DISCONNECT), Server.Close has returned and then no library goroutine remains; a publisher that was held up by the ended subscriber answers a PINGREQ again"
 	for _, sc := range tdScenarios(c.Thorough()) {
 		if !c.Mine() {
